@@ -294,6 +294,9 @@ func (f *Frame) specCall(st *State, e *ast.CallExpr, kind string) []*Term {
 	case kind == "lastStr":
 		k := f.expr(st, e.Args[0])
 		return []*Term{Select(c.heapGet(st, "G!laststr", ArrSort(SStr, SStr)), k)}
+	case kind == "firstCall" || kind == "lastCall":
+		k := f.expr(st, e.Args[0])
+		return []*Term{Select(c.heapGet(st, map[string]string{"firstCall": "G!first", "lastCall": "G!last"}[kind], ArrSort(SStr, SInt)), k)}
 	case kind == "called" || kind == "lastErr":
 		k := f.expr(st, e.Args[0])
 		if kind == "called" {
